@@ -47,6 +47,8 @@ PALETTE = [
 
 
 def make_tensor(name, cls, shape, bks, idx):
+    if cls == "K":
+        return KroneckerDelta(idx[0], idx[1])
     if cls == "N":
         return NonSymmetricTensor(name, tuple(idx))
     nu = shape[0]
@@ -161,9 +163,15 @@ class TermGen:
         for _ in range(tries):
             n = rng.randint(*self.o["n_tensors"])
             chosen = [rng.choice(pal) for _ in range(n)]
+            # Kronecker deltas take part in the slot pairing like two-index tensors
+            # ("=": the space and spin of the preceding slot)
+            chosen += [("delta", "K", (1, 1), (0,), "*=")] * rng.randint(*self.o["deltas"])
             slots = []  # [tensor number, slot number, space, spin, index]
             for ti, (name, cls, shape, bkss, sl) in enumerate(chosen):
                 for si, ch in enumerate(sl):
+                    if ch == "=":
+                        slots.append([ti, si, slots[-1][2], slots[-1][3], None, "*"])
+                        continue
                     sp = rng.choice(self.o["spaces"]) if ch == "*" else ch
                     slots.append([ti, si, sp, self._spin(), None, ch])
             free = list(range(len(slots)))
